@@ -2618,12 +2618,21 @@ func buildExtensions(template *Certificate, _ []byte) (ret []pkix.Extension, err
 			}
 			out.Excluded = append(out.Excluded, generalSubtree{Value: asn1.RawValue{Tag: 4, Class: 2, IsCompound: true, Bytes: dn}})
 		}
+		// The address and the mask are concatenated in a buffer of their
+		// own: appending to the template's IP slice would write into its
+		// spare capacity, which may be the next address of the caller's
+		// table.
+		ipAndMask := func(ipNet net.IPNet) []byte {
+			b := make([]byte, 0, len(ipNet.IP)+len(ipNet.Mask))
+			b = append(b, ipNet.IP...)
+			return append(b, ipNet.Mask...)
+		}
 		for _, permitted := range template.PermittedIPAddresses {
-			ip := append(permitted.Data.IP, permitted.Data.Mask...)
+			ip := ipAndMask(permitted.Data)
 			out.Permitted = append(out.Permitted, generalSubtree{Value: asn1.RawValue{Tag: 7, Class: 2, Bytes: ip}})
 		}
 		for _, excluded := range template.ExcludedIPAddresses {
-			ip := append(excluded.Data.IP, excluded.Data.Mask...)
+			ip := ipAndMask(excluded.Data)
 			out.Excluded = append(out.Excluded, generalSubtree{Value: asn1.RawValue{Tag: 7, Class: 2, Bytes: ip}})
 		}
 		ret[n].Value, err = asn1.Marshal(out)
